@@ -329,6 +329,9 @@ func c02GenConf(rng *rand.Rand, rs []*c01Rule) *vkConf {
 		FilteringEnabled: rng.Intn(10) != 0,
 		AAAADisabled:     rng.Intn(4) == 0,
 	}
+	if rng.Intn(3) == 0 {
+		c.CacheSize = 1 << 20
+	}
 	c.Clients = []vkClient{
 		{Name: "kid", IP: "127.0.0.2", UseOwnSettings: true, FilteringEnabled: rng.Intn(3) != 0},
 	}
@@ -376,14 +379,30 @@ func c02RunSet(rep *verifkit.Report, rng *rand.Rand, idx, confsPerSet, queriesPe
 			}
 			src := []string{"127.0.0.1", "127.0.0.2"}[rng.Intn(2)]
 			ans := c02GenAnswer(rng, qname, qtype)
-			c02One(rep, vs, env, texts, qname, qtype, src, rng.Intn(6) == 0, ans, idx == 0 && ci == 0 && qi < 2)
+			if conf.CacheSize > 0 {
+				// With the response cache on every question is unique per
+				// server (a repeated question would be answered with the first
+				// upstream answer) and is asked two or three times in a row:
+				// the repeats are served from the cache and must be filtered
+				// exactly like the first one.
+				qname = fmt.Sprintf("q%d-%d.", qi, ci) + qname
+				ans = c02GenAnswer(rng, qname, qtype)
+				tcp := rng.Intn(6) == 0
+				c02One(rep, vs, env, texts, qname, qtype, src, tcp, ans, false, false)
+				for k := 0; k < 1+rng.Intn(2); k++ {
+					c02One(rep, vs, env, texts, qname, qtype, src, tcp, ans, false, true)
+				}
+
+				continue
+			}
+			c02One(rep, vs, env, texts, qname, qtype, src, rng.Intn(6) == 0, ans, idx == 0 && ci == 0 && qi < 2, false)
 		}
 		vs.stop()
 	}
 }
 
 func c02One(rep *verifkit.Report, vs *vkServer, env *c01Env, texts []string, qname string, qtype uint16,
-	src string, tcp bool, ans []dns.RR, sample bool) {
+	src string, tcp bool, ans []dns.RR, sample bool, repeat bool) {
 	conf := env.conf
 	vs.Up.Script = func(_ *dns.Msg, _ int) ([]dns.RR, int) {
 		out := make([]dns.RR, len(ans))
@@ -403,7 +422,7 @@ func c02One(rep *verifkit.Report, vs *vkServer, env *c01Env, texts []string, qna
 	view := c01View(conf)
 	witness := func(extra map[string]any) map[string]any {
 		w := map[string]any{
-			"rules": texts, "config": view, "aaaa_disabled": conf.AAAADisabled,
+			"rules": texts, "config": view, "aaaa_disabled": conf.AAAADisabled, "cache_size": conf.CacheSize, "repeated_question": repeat,
 			"query":           map[string]any{"name": qname, "qtype": dns.TypeToString[qtype], "src": src, "tcp": tcp},
 			"upstream_answer": vkRRStrings(ans), "request_stage_model": reqV, "upstream_calls": calls,
 		}
@@ -422,7 +441,7 @@ func c02One(rep *verifkit.Report, vs *vkServer, env *c01Env, texts []string, qna
 	if sample {
 		rep.Sample(witness(nil))
 	}
-	canon := strings.Join(texts, "\n") + "|" + verifkit.JSON(view) + fmt.Sprint(conf.AAAADisabled) + "|" +
+	canon := strings.Join(texts, "\n") + "|" + verifkit.JSON(view) + fmt.Sprint(conf.AAAADisabled, conf.CacheSize, repeat) + "|" +
 		strings.ToLower(qname) + fmt.Sprint(qtype, src) + "|" + strings.Join(vkRRStrings(ans), ";")
 	if xerr != nil || resp == nil {
 		rep.Eval(false, canon)
@@ -451,7 +470,19 @@ func c02One(rep *verifkit.Report, vs *vkServer, env *c01Env, texts []string, qna
 
 	idx, byHost, anyMatched, why := c02Expect(env, ans, src, conf.AAAADisabled)
 	rep.Eval(anyMatched, canon)
-	if len(calls) != 1 {
+	if repeat {
+		// A repeated question may be answered from the response cache.
+		if len(calls) == 0 {
+			rep.Event("repeats_answered_from_cache")
+		} else {
+			rep.Event("repeats_forwarded_again")
+		}
+		if len(calls) > 1 {
+			rep.Violate("upstream-calls", fmt.Sprintf("expected at most one upstream call for a repeated question, saw %d", len(calls)), witness(nil))
+
+			return
+		}
+	} else if len(calls) != 1 {
 		rep.Violate("upstream-calls", fmt.Sprintf("expected exactly one upstream call, saw %d", len(calls)), witness(nil))
 
 		return
@@ -618,7 +649,7 @@ func c02PositionSweep(rep *verifkit.Report) {
 	texts := []string{"block1:||" + badName + "^", "custom:||" + badV4 + "^", "block2:||" + badV6 + "^"}
 	for _, mode := range c01Modes {
 		conf := c02GenConf(rng, rs)
-		conf.Mode, conf.Protection, conf.FilteringEnabled, conf.AAAADisabled = mode, true, true, false
+		conf.Mode, conf.Protection, conf.FilteringEnabled, conf.AAAADisabled, conf.CacheSize = mode, true, true, false, 0
 		env := &c01Env{conf: conf, rules: rs}
 		vs, err := vkStart(conf)
 		if err != nil {
@@ -658,7 +689,7 @@ func c02PositionSweep(rep *verifkit.Report) {
 				g := good()
 				ans := append(append(append([]dns.RR{}, g[:pos]...), bad()), g[pos:]...)
 				for _, qt := range []uint16{dns.TypeA, dns.TypeAAAA, dns.TypeHTTPS} {
-					c02One(rep, vs, env, texts, qname, qt, "127.0.0.1", false, ans, false)
+					c02One(rep, vs, env, texts, qname, qt, "127.0.0.1", false, ans, false, false)
 					rep.Class(fmt.Sprintf("position_sweep_kind%d", bi))
 				}
 			}
